@@ -605,9 +605,9 @@ func init() {
 		}
 		thor := x.Tier == "thorough"
 
-		x.Add(&Family{Name: "post-format", Quick: 300, Thor: 5000, Run: func(c *Case) { c19PostFormat(c) }})
-		x.Add(&Family{Name: "store-raw", Quick: 1500, Thor: 30000, Run: func(c *Case) { c19StoreRaw(c) }})
-		x.Add(&Family{Name: "board-forced", Quick: 350, Thor: 4000, Run: func(c *Case) {
+		x.Add(&Family{Name: "post-format", Quick: 300, Thor: 4000, Run: func(c *Case) { c19PostFormat(c) }})
+		x.Add(&Family{Name: "store-raw", Quick: 1500, Thor: 20000, Run: func(c *Case) { c19StoreRaw(c) }})
+		x.Add(&Family{Name: "board-forced", Quick: 350, Thor: 3000, Run: func(c *Case) {
 			k := 2 + c.R.Intn(3)
 			pauses := []int{1 + c.R.Intn(4)}
 			if c.R.Chance(30) {
@@ -615,14 +615,14 @@ func init() {
 			}
 			c19BoardRun(c, k, pauses)
 		}})
-		x.Add(&Family{Name: "board-concurrent", Quick: 400, Thor: 5000, Run: func(c *Case) {
+		x.Add(&Family{Name: "board-concurrent", Quick: 400, Thor: 3500, Run: func(c *Case) {
 			k := 2 + c.R.Intn(7)
 			if thor && c.R.Chance(30) {
 				k = 8 + c.R.Intn(41)
 			}
 			c19BoardRun(c, k, nil)
 		}})
-		x.Add(&Family{Name: "agreement-concurrent", Quick: 200, Thor: 2500, Run: func(c *Case) { c19Agreement(c, thor) }})
+		x.Add(&Family{Name: "agreement-concurrent", Quick: 200, Thor: 2000, Run: func(c *Case) { c19Agreement(c, thor) }})
 	}
 }
 
